@@ -148,3 +148,80 @@ func c10HasherBinding(c *Check, rule string) {
 	}
 	c.Ob(rule, "hasher is registered with its own multihash code", okReg, p.Pos(reg.Pos()), "registerBlock stores the multihash code it registers into the hasher field the comparison uses")
 }
+
+// c09AccessorOutlivesCopy (R9.1): the response reader may read from the accessor lazily
+// (the whole-square reader pulls rows during io.Copy), so the accessor must stay open until
+// the response has been written: no non-deferred release of the accessor is followed by the
+// copy of the response to the stream.
+func c09AccessorOutlivesCopy(c *Check) {
+	p := c.P
+	h := p.Func("share/shwap/p2p/shrex", "Server", "handleDataRequest")
+	if h == nil {
+		return
+	}
+	var acq *ssa.Call
+	for _, b := range h.Blocks {
+		for _, ins := range b.Instrs {
+			if g, ok := ins.(*ssa.Call); ok && g.Call.IsInvoke() && g.Call.Method.Name() == "GetByHeight" {
+				acq = g
+			}
+		}
+	}
+	if acq == nil {
+		return
+	}
+	var file ssa.Value = acq
+	for _, ref := range *acq.Referrers() {
+		if ex, ok := ref.(*ssa.Extract); ok && ex.Index == 0 {
+			file = ex
+		}
+	}
+	copies := blocksWhere(h, func(ins ssa.Instruction) bool {
+		g, ok := ins.(*ssa.Call)
+		if !ok {
+			return false
+		}
+		o := calleeObj(&g.Call)
+		return o != nil && pkgPathOf(o) == "io" && (o.Name() == "Copy" || o.Name() == "CopyN" || o.Name() == "CopyBuffer")
+	})
+	c.Floor("R9.1", "copies of the response to the stream", len(copies), 1)
+	ok := true
+	var wit []string
+	for _, b := range h.Blocks {
+		for _, ins := range b.Instrs {
+			if _, isDefer := ins.(*ssa.Defer); isDefer {
+				continue
+			}
+			if !isReleaseOf(p, ins, file, "Close") {
+				continue
+			}
+			// a release that is not deferred: the copy must not be reachable afterwards
+			if copies[b] {
+				// same block: is the copy after the release?
+				after := false
+				seen := false
+				for _, i2 := range b.Instrs {
+					if i2 == ins {
+						seen = true
+					}
+					if g, isCall := i2.(*ssa.Call); isCall && seen {
+						if o := calleeObj(&g.Call); o != nil && pkgPathOf(o) == "io" && o.Name() == "Copy" {
+							after = true
+						}
+					}
+				}
+				if after {
+					ok = false
+					wit = []string{"release and copy in block " + p.Pos(ins.Pos())}
+				}
+				continue
+			}
+			if res := gateWalkFrom(p, h, b, copies, nil, nil); res.Reached {
+				ok = false
+				wit = res.Witness
+			}
+		}
+	}
+	c.Ob("R9.1", "accessor stays open until the response is written", ok, p.Pos(h.Pos()),
+		"no non-deferred release of the accessor is followed by the copy of the (possibly lazy) response reader to the stream", wit...)
+}
